@@ -90,6 +90,21 @@ def check_epoch(prop: str, res: Result, repo: Repo):
                 return Num(A("sym", "tzinfo"))
             return super().attr(st, base, name, node)
 
+        def call(self, st, node):
+            # ts.replace(microsecond=0) is clean_timestamp spelled out: the identity on the second-resolution axis
+            f = node.func
+            if isinstance(f, ast.Attribute) and f.attr == "replace" and not node.args and [k.arg for k in node.keywords] == ["microsecond"] and isinstance(node.keywords[0].value, ast.Constant) and node.keywords[0].value.value == 0:
+                base = self.expr(f.value, st)
+                if isinstance(base, Num):
+                    return base
+            return super().call(st, node)
+
+        def truth(self, v, st, node):
+            # a duration is falsy exactly when it is timedelta(0)
+            if isinstance(v, Num) and not v.f.is_const() and any(a[0] == "fn" and a[1] in ("mod", "floordiv") for a in poly.all_atoms(v.f)):
+                return mk_cmp("!=", v.f, ZERO)
+            return super().truth(v, st, node)
+
     def run(fi):
         it = TFInterp(repo, fi.module)
         st = State()
@@ -1159,22 +1174,54 @@ def check_ha(prop: str, res: Result, repo: Repo):
         facts = p.state.facts
         first = any(isinstance(f, tuple) and f[0] == "cmp" and f[1] == "==" and f[2] == A("sym", "i") for f in facts)
         rest = any(isinstance(f, tuple) and f[0] == "cmp" and f[1] == "!=" and f[2] == A("sym", "i") for f in facts)
-        if not (first or rest):
+        I0 = A("sym", "i")
+
+        def is_first_test(cond):
+            """(True / False: the condition is `index == 0` / `index != 0`; None: something else)"""
+            if isinstance(cond, tuple) and cond[0] == "cmp" and cond[2] == I0 and cond[1] in ("==", "!="):
+                return cond[1] == "=="
+            if isinstance(cond, tuple) and cond[0] == "not":
+                r = is_first_test(cond[1])
+                return None if r is None else not r
+            return None
+
+        def in_case(v, case_first):
+            """the value with every choice on `index == 0` resolved for the given case"""
+            if not isinstance(v, Num):
+                return v
+            f = v.f
+            for _ in range(8):
+                hit = None
+                for a in poly.all_atoms(f):
+                    if a[0] == "ite":
+                        t = is_first_test(a[1])
+                        if t is not None:
+                            hit = (a, a[2] if t == case_first else a[3])
+                            break
+                if hit is None:
+                    break
+                f = poly.subst(f, {hit[0]: hit[1]})
+            return Num(f)
+
+        split_in_values = any(a[0] == "ite" and is_first_test(a[1]) is not None for fld in ("open", "high", "low", "close") for v in [final_attr(p.state, "c", fld)] if isinstance(v, Num) for a in poly.all_atoms(v.f))
+        if not (first or rest) and not split_in_values:
             res.fail(rule, finding(prop, rule, ha, ha.node, "convert_candle does not distinguish the first candle (index == 0) from the others", construct="HA: index == 0 case split"))
             continue
-        seen_first |= first
-        seen_rest |= rest
-        open_w = (o + c) / C(2) if first else (at("prev", "open") + at("prev", "close")) / C(2)
-        want = {"close": close_w, "open": open_w, "high": mk_fn("max", h, open_w, close_w), "low": mk_fn("min", l, open_w, close_w)}
-        for fld, w in want.items():
-            got = final_attr(p.state, "c", fld)
-            if _same(got, w):
-                res.ok(rule, {"site": ha.where, "case": "first candle" if first else "later candles", "field": fld, "value": repr(w)}, nontrivial=f"HA:{first}:{fld}")
-            else:
-                res.fail(rule, finding(prop, rule, ha, ha.node, f"HA-{fld} ({'first candle' if first else 'later candles'}) is {got!r}; the recurrence requires {w!r}", construct=f"HA {fld} {'first' if first else 'rest'}: {got!r}"[:190]))
-        vol = final_attr(p.state, "c", "volume")
-        if not _same(vol, at("c", "volume")):
-            res.fail(rule, finding(prop, rule, ha, ha.node, "conversion changes the volume", construct="HA volume"))
+        cases = [True] if first else [False] if rest else [True, False]
+        for first in cases:
+            seen_first |= first
+            seen_rest |= not first
+            open_w = (o + c) / C(2) if first else (at("prev", "open") + at("prev", "close")) / C(2)
+            want = {"close": close_w, "open": open_w, "high": mk_fn("max", h, open_w, close_w), "low": mk_fn("min", l, open_w, close_w)}
+            for fld, w in want.items():
+                got = in_case(final_attr(p.state, "c", fld), first)
+                if _same(got, w):
+                    res.ok(rule, {"site": ha.where, "case": "first candle" if first else "later candles", "field": fld, "value": repr(w)}, nontrivial=f"HA:{first}:{fld}")
+                else:
+                    res.fail(rule, finding(prop, rule, ha, ha.node, f"HA-{fld} ({'first candle' if first else 'later candles'}) is {got!r}; the recurrence requires {w!r}", construct=f"HA {fld} {'first' if first else 'rest'}: {got!r}"[:190]))
+            vol = final_attr(p.state, "c", "volume")
+            if not _same(vol, at("c", "volume")):
+                res.fail(rule, finding(prop, rule, ha, ha.node, "conversion changes the volume", construct="HA volume"))
     if not (seen_first and seen_rest):
         res.fail(rule, finding(prop, rule, ha, ha.node, "convert_candle lacks the first-candle or the later-candle case", construct="HA: cases"))
 
